@@ -525,3 +525,144 @@ def run_stream(name, seed, n, work):
     res["failing"] = fails
     res["error"] = err
     return res
+
+
+# ----------------------------------------------------------------------------------------------- S9 lifecycle (subprocess)
+def gen_items(rng, depth=0, allow_import=True):
+    """random module body: list of ("ev",) | ("raise",) | ("exit",) | ("import", body, handled)"""
+    n = rng.randrange(0, 4)
+    body = [("ev",)]  # every module contains an instrumented construct, otherwise DynaPyt leaves it unwrapped
+    for _ in range(n):
+        r = rng.random()
+        if r < 0.55:
+            body.append(("ev",))
+        elif r < 0.65:
+            body.append(("raise",))
+        elif r < 0.72:
+            body.append(("exit",))
+        elif allow_import and depth < 2:
+            body.append(("import", gen_items(rng, depth + 1), rng.random() < 0.5))
+        else:
+            body.append(("ev",))
+    return body
+
+
+def items_to_coq(body):
+    out = "INil"
+    for it in reversed(body):
+        if it[0] == "ev":
+            c = "IEv"
+        elif it[0] == "raise":
+            c = "IRaise"
+        elif it[0] == "exit":
+            c = "IExit"
+        else:
+            c = "(IImport %s %s)" % (items_to_coq(it[1]), cbool(it[2]))
+        out = "(ICons %s %s)" % (c, out)
+    return out
+
+
+def render_items(body, files, name):
+    """python modules for a body; events are integer literals on their own statements"""
+    lines = []
+    for it in body:
+        if it[0] == "ev":
+            lines.append("x = 7")
+        elif it[0] == "raise":
+            lines.append('raise ValueError("v")')
+        elif it[0] == "exit":
+            lines += ["from vlife import EXITCODE", "raise SystemExit(EXITCODE)"]
+        else:
+            sub = "m%d" % (len(files) + 1)
+            files[sub] = None
+            render_items(it[1], files, sub)
+            if it[2]:
+                lines += ["try:", "    import %s" % sub, "except ValueError:", "    pass"]
+            else:
+                lines.append("import %s" % sub)
+    files[name] = "\n".join(lines or ["pass"]) + "\n"
+
+
+def _run_life(job):
+    import subprocess
+    import shutil
+
+    casedir, mode, cov, env = job
+    p = subprocess.run([sys.executable, str(Path(__file__).resolve().parent.parent / "support" / "lifecycle_driver.py"), casedir, mode, "1" if cov else "0"],
+                       capture_output=True, text=True, env=env, timeout=120)
+    log = Path(casedir) / "notes.log"
+    notes = log.read_text().splitlines() if log.exists() else []
+    covfiles = [str(f.relative_to(casedir)) for f in Path(casedir).rglob("coverage-*.json")]
+    stray = [f.name for f in Path(casedir).glob("-dynapyt.json")]
+    return {"rc": p.returncode, "notes": notes, "covfiles": covfiles, "stderr": p.stderr[-600:], "stray": stray}
+
+
+def stream_lifecycle(rng, n, work):
+    from multiprocessing.pool import ThreadPool
+    from common import env_for_impl
+
+    d = work.sub("life")
+    jobs, metas = [], []
+    for ci in range(n):
+        single = rng.random() < 0.5
+        body = gen_items(rng, allow_import=not single)
+        mode = rng.choice(["run_analysis", "direct"])
+        cov = rng.random() < 0.4
+        files = {}
+        render_items(body, files, "main")
+        cd = d / ("c%d" % ci)
+        cd.mkdir()
+        for name, src in files.items():
+            (cd / (name + ".py")).write_text(src)
+        # the entry module file must be matched by the driver's m*.py glob
+        env = env_for_impl(work.dir / "tmp")
+        jobs.append((str(cd), mode, cov, env))
+        metas.append({"body": body, "mode": mode, "coverage": cov, "single": single})
+    with ThreadPool(16) as tp:
+        results = tp.map(_run_life, jobs)
+    cases, coq_cases, gram = [], [], []
+    stats = {"single_module": 0, "with_raise": 0, "with_exit": 0, "coverage": 0, "run_analysis": 0, "impl_grammar_violations": 0}
+    impl_viol = []
+    for m, r in zip(metas, results):
+        notes = []
+        for line in r["notes"]:
+            k, what = line.split(" ", 1)
+            what = what.split(" ")[0]
+            notes.append((int(k) - 1, what))  # instance 0 is the one get_hooks_from_analysis constructs
+        m["observed"] = notes
+        m["rc"] = r["rc"]
+        m["covfiles"] = len(r["covfiles"])
+        m["stray"] = r["stray"]
+        m["stderr"] = r["stderr"][-200:]
+        flat = json.dumps(m["body"])
+        stats["single_module"] += m["single"]
+        stats["with_raise"] += '"raise"' in flat
+        stats["with_exit"] += '"exit"' in flat
+        stats["coverage"] += m["coverage"]
+        stats["run_analysis"] += m["mode"] == "run_analysis"
+        cases.append(m)
+        nm = {"begin": "NBegin", "ev": "NEv", "uncaught": "NUncaught", "end": "NEnd"}
+        exp = clist(["%s %d" % (nm[w], k) for k, w in notes])
+        l = "LRunAnalysis" if m["mode"] == "run_analysis" else "LDirect"
+        last = (r["stderr"].strip().splitlines() or [""])[-1]
+        if r["rc"] == 0:
+            oc = 0
+        elif r["rc"] == 3:
+            oc = 2
+        elif last.startswith("ValueError"):
+            oc = 1
+        elif last.startswith("AttributeError"):
+            oc = 3
+        else:
+            oc = 9
+        m["outcome"] = oc
+        coq_cases.append("(%s, %s, %s, (%s, %d))" % (cbool(m["coverage"]), l, items_to_coq(m["body"]), exp, oc))
+        gram.append("(%s, %s, %s)" % (cbool(m["coverage"]), l, items_to_coq(m["body"])))
+    coq = "Definition cases : list (bool * launch * items * (list note * nat)) :=\n  %s.\n" % clist(coq_cases)
+    coq += "Eval vm_compute in failing ok_lifecycle cases.\n"
+    coq += "Definition gcases : list (bool * launch * items) :=\n  %s.\n" % clist(gram)
+    coq += "Eval vm_compute in failing model_meets_grammar gcases.\n"
+    return {"name": "lifecycle", "cases": cases, "coq": coq, "dist": stats, "n_sub": [len(cases), len(cases)]}
+
+
+STREAMS["lifecycle"] = stream_lifecycle
